@@ -95,6 +95,25 @@ def explore(chk):
             tc = sccgen.timecode(60, False)
             text_ = "\n".join(["Scenarist_SCC V1.0", "", tc + "\t" + line_(ta), "", tc + "\t" + line_(tb), "", sccgen.timecode(400, False) + "\t" + sccgen.CMD["EDM"], ""]) + "\n"
             cases.append((text_, [[ta], [tb]], mode_ + "-same-time-code"))
+    # captions of many adjacent rows (more than a screen shows at once; the reader keeps them as lines of one caption): the long
+    # row is any of them, the fifth and later ones included
+    many_sub = chk.sub("many_adjacent_rows")
+    for nrows in (5, 6, 8, 12):
+        for pos in sorted({0, 3, 4, nrows - 1}):
+            for long_ in (True, False):
+                r0 = many_sub.randint(1, 15 - nrows + 1)
+                rows = []; texts = []
+                for j in range(nrows):
+                    r, t_ = plain_row(many_sub, r0 + j, many_sub.choice([33, 36, 40]) if (long_ and j == pos) else many_sub.choice([3, 12, 32]))
+                    rows.append(r); texts.append(t_)
+                cases.append((popon_text([rows]), [texts], "pop-many-rows"))
+                if nrows <= 8:
+                    lines_ = ["Scenarist_SCC V1.0", ""]
+                    words_ = [sccgen.CMD["RDC"]]
+                    for j, t_ in enumerate(texts):
+                        words_ += [sccgen.pac(r0 + j)] + sccgen.chars_to_words(t_)
+                    lines_ += [sccgen.timecode(30, False) + "\t" + " ".join(words_), "", sccgen.timecode(30 + len(words_) + 60, False) + "\t" + sccgen.CMD["EDM"], ""]
+                    cases.append(("\n".join(lines_) + "\n", [texts], "paint-many-rows"))
     N = 300 if chk.tier == "quick" else 8000
     for i in range(N):
         mode = rng.choice(["pop", "pop", "roll", "paint"])
